@@ -422,7 +422,8 @@ def gen_case(rng, small=False, alloc=None, via="file", big=False, spell=False, n
     if big:
         nx, ny = rng.choice(BIG_SIZES)
     if near and alloc is None:
-        nx, ny = rng.choice(SIZES[1:9] if near != "plain-decimal" else SIZES[:12])
+        # at most 6 cells (and k <= 2 above 4): 53-bit numerators make every Qc operation of the model ~100 x dearer
+        nx, ny = rng.choice(SIZES[1:8] if near != "plain-decimal" else SIZES[:8])
         ax = rng.randrange(2) if near != "plain-decimal" else None
         dims = [nx, ny]
         if ax is not None and dims[ax] >= 2:
@@ -436,7 +437,7 @@ def gen_case(rng, small=False, alloc=None, via="file", big=False, spell=False, n
                                                   gen_axis_decimal(rng, dims[a]))]
             if a == ax:
                 v = add_near_line(rng, v)
-                if near == "dyadic" and rng.random() < 0.3 and len(v) * (dims[1 - a]) <= 9:
+                if near == "dyadic" and rng.random() < 0.3 and len(v) * (dims[1 - a]) <= 6:
                     v = add_near_line(rng, v)       # three lines in a row one unit apart, or two such pairs
             axes.append(v)
         xs, ys = axes
@@ -488,7 +489,8 @@ def gen_case(rng, small=False, alloc=None, via="file", big=False, spell=False, n
         occ = [rng.choice(OCC) for _ in cells]
     if alloc is not None:
         occ = [min(p, Fraction(1)) for p in occ]          # an Allocation keeps ratios in [0, 1]
-    case = {"kind": kind, "cells": cells, "occ": occ, "k": rng.choice([1, 2, 2] if big else [1, 2, 2, 3, 3]), "factor": factor,
+    case = {"kind": kind, "cells": cells, "occ": occ,
+            "k": rng.choice([1, 2, 2] if big or (near and len(cells) > 4) else [1, 2, 2, 3, 3]), "factor": factor,
             "ratio": rng.choice([Fraction(2)] * 8 + [Fraction(3)] * 4 + [Fraction(5, 2)] * 4 + [Fraction(3, 2)] * 3 +
                                 [Fraction(1)]), "bound": 0,
             "history": None}
